@@ -1,5 +1,6 @@
 import Driver.Proto
 import Gotree.Spec.C03
+import Gotree.Spec.C03Text
 import Gotree.Model.C03Ops
 import Gotree.Model.C07
 import Gotree.Model.C16
@@ -38,7 +39,7 @@ def tipEffect (op : String) : Option TipEffect :=
   match op.splitOn ":" with
   | ["reroot", _] | ["rerootfirst"] | ["midpoint"] | ["unroot"] | ["collapselen", _, _, _] | ["collapsesup", _, _]
   | ["collapsedepth", _, _, _, _] | ["removeedges", _, _, _] | ["resolve", _] | ["rotate", _] | ["shuffle", _]
-  | ["sorttips"] | ["removesingle"] | ["nni", _, _] | ["clone"] | ["reinit"] => some .same
+  | ["sorttips"] | ["removesingle"] | ["nni", _, _] | ["nniapply", _] | ["nniundo"] | ["clone"] | ["reinit"] => some .same
   | ["outgroup", rm, _, names] =>
     if rm == "1" then (parseStrList names).map .subsetWithout else some .same
   | ["prune", rev, names] => (parseStrList names).map fun l => .keep l (rev == "1")
@@ -57,6 +58,11 @@ def tipEffect (op : String) : Option TipEffect :=
     match parsePath p with
     | some (some q) => some (.subtree q)
     | _ => none
+  | ["reinitinternal"] | ["updatetipindex"] | ["rotateone", _, _] | ["clearlengths", _, _] | ["clearsupports"] | ["clearcomments"] | ["scalelengths", _, _, _]
+  | ["roundlengths", _, _, _] => some .same
+  | ["identicalone", _, nw] => (unescape nw).map fun n => .add [n]
+  | ["collapseclade", _, name, _] => (unescape name).map fun n => .subsetWith [n]
+  | ["resolvenamed"] => some (.add [])     -- the names of the named inner nodes: filled in by the caller
   | _ => none
 
 /-- no single-child inner node and the root is not a tip (what pruning may assume) -/
@@ -89,7 +95,7 @@ def edgeIdAt (t : T) (p : Path) : Option Int :=
   | _, _ => none
 
 def isRenaming (n : String) : Bool :=
-  ["renameauto", "renameregex", "addquotes", "rmquotes", "shuffle"].contains n
+  ([] : List String).contains n
 
 def modelOf (op extra : String) (inSync sizesOK : Bool) (tb : T) : ModelRes :=
   -- trees with fewer than 3 tips are outside the quantifier of the operation models (C05 … C17)
@@ -138,6 +144,43 @@ def modelOf (op extra : String) (inSync sizesOK : Bool) (tb : T) : ModelRes :=
     | some a, some b => ofRes (applyOp (.collapseDepth a b (flagOf rr) (flagOf rt)) tb)
     | _, _ => .noModel
   | ["reinit"] => ofRes (applyOp .reinit tb)
+  | ["reinitinternal"] => .ok tb
+  | ["resolvenamed"] => .ok (resolveNamed false tb)
+  | ["updatetipindex"] => if hasDupS tb.tipNames then .err else .ok tb
+  | ["identicalone", old, nw] =>
+    if !inSync then .skip "stale-index" else
+    match unescape old, unescape nw with
+    | some o, some n =>
+      (match Gotree.C15.insertOne tb tb.tipNames o n with
+       | .ok t' => .ok t'
+       | .error _ => .err)
+    | _, _ => .noModel
+  | ["clearlengths", i, x] => .ok (clearLengths (flagOf i) (flagOf x) tb)
+  | ["clearsupports"] => .ok (clearSupports tb)
+  | ["clearcomments"] => .ok (clearComments tb)
+  | ["scalelengths", q, i, x] =>
+    match parseRat? q with
+    | some r => .ok (scaleLengths r (flagOf i) (flagOf x) tb)
+    | none => .noModel
+  | ["roundlengths", "0", i, x] => .ok (roundLengths0 (flagOf i) (flagOf x) tb)
+  | ["shuffle", _] =>
+    match parseDraws extra with
+    | some ds => ofRes (applyOp (.shuffle ds) tb)
+    | none => .skip "no-draws"
+  | ["renameregex", i, tp, pat, repl] =>
+    match unescape pat, unescape repl with
+    | some p, some r =>
+      (match regexTable p r with
+       | none => .err
+       | some none => .skip "regex-not-in-table"
+       | some (some f) => ofRes (renameSel (flagOf i) (flagOf tp) f tb))
+    | _, _ => .noModel
+  | ["renameauto", i, tp, l] =>
+    match l.toNat? with
+    | some n => ofRes (applyOp (.renameAuto (flagOf i) (flagOf tp) n) tb)
+    | none => .noModel
+  | ["addquotes", i, tp] => ofRes (applyOp (.quotes true (flagOf i) (flagOf tp)) tb)
+  | ["rmquotes", i, tp] => ofRes (applyOp (.quotes false (flagOf i) (flagOf tp)) tb)
   | ["rename", olds, news] =>
     match parseStrList olds, parseStrList news with
     | some o, some n => ofRes (applyOp (.rename (o.zip n)) tb)
@@ -177,6 +220,10 @@ def modelOf (op extra : String) (inSync sizesOK : Bool) (tb : T) : ModelRes :=
       | some t => .ok t
       | none => .skip "draw-protocol"
     | none => .skip "no-draws"
+  | ["nniapply", k] =>
+    match k.toNat? with
+    | none => .noModel
+    | some k => ofRes (applyOp (.nni k false) tb)
   | ["nni", k, undo] =>
     match k.toNat? with
     | none => .noModel
@@ -211,6 +258,7 @@ def editOpOf (op extra : String) : Option EditOp :=
   | ["merge", dump] => (T.undump dump).map .merge
   | ["resolve", _] => (parseDraws extra).map .resolve
   | ["nni", k, undo] => k.toNat?.map fun n => .nni n (flagOf undo)
+  | ["nniapply", k] => k.toNat?.map fun n => .nni n false
   | ["collapsedepth", mn, mx, rr, rt] =>
     match mn.toInt?, mx.toInt? with
     | some a, some b => some (.collapseDepth a b (flagOf rr) (flagOf rt))
@@ -218,6 +266,10 @@ def editOpOf (op extra : String) : Option EditOp :=
   | ["subtree", p] => ((parsePath p).bind id).map .subTree
   | ["outgroup", rm, strict, names] => (parseStrList names).map (.outgroup (flagOf rm) (flagOf strict))
   | ["midpoint"] => some .midpoint
+  | ["shuffle", _] => (parseDraws extra).map .shuffle
+  | ["renameauto", i, tp, l] => l.toNat?.map fun n => .renameAuto (flagOf i) (flagOf tp) n
+  | ["addquotes", i, tp] => some (.quotes true (flagOf i) (flagOf tp))
+  | ["rmquotes", i, tp] => some (.quotes false (flagOf i) (flagOf tp))
   | ["reinit"] => some .reinit
   | ["rename", olds, news] =>
     match parseStrList olds, parseStrList news with
@@ -240,7 +292,7 @@ def indexInSync : List String → Bool
     let n := opName op
     if n == "graftedge" then false
     else if ["reinit", "prune", "merge", "shuffle", "identical", "rename", "renameauto", "renameregex", "addquotes",
-             "rmquotes", "grafttree", "subtree", "clone"].contains n then true
+             "rmquotes", "grafttree", "subtree", "clone", "collapseclade", "resolvenamed", "updatetipindex"].contains n then true
     else indexInSync earlier
 
 /-- Are the subtree sizes stored on the branches (`ntaxleft/right`, read by `TopoDepth`) known to be
@@ -250,14 +302,23 @@ def sizesInSync : List String → Bool
   | [] => true
   | op :: earlier =>
     let n := opName op
-    if ["graftedge", "grafttree", "nni"].contains n then false
+    if ["graftedge", "grafttree", "nni", "nniapply", "nniundo", "collapseclade", "identicalone"].contains n then false
     else if ["reinit", "prune", "reroot", "rerootfirst", "outgroup", "midpoint", "resolve", "removesingle", "collapselen",
-             "collapsesup", "collapsedepth", "removeedges", "shuffle", "identical", "merge", "subtree"].contains n then true
+             "collapsesup", "collapsedepth", "removeedges", "shuffle", "identical", "merge", "subtree", "resolvenamed", "reinitinternal"].contains n then true
     else sizesInSync earlier
+
+def parseSlot (s : String) : Option Slot :=
+  match (s.splitOn "/").mapM String.toInt? with
+  | some [a, b, c, d] => some ⟨a, b, c, d⟩
+  | _ => none
+
+def parseGraph (s : String) : Option Graph :=
+  (splitTerm ";" s).mapM fun ns =>
+    if ns == "x" then some none else ((splitTerm "," ns).mapM parseSlot).map some
 
 def handle (op : String) (f : List String) : Verdict :=
   match op, f with
-  | "step", [start, ops, _k, before, outcome, wf, after, ns, ts, es, is, xs, text, extra] =>
+  | "step", [start, ops, _k, before, outcome, wf, after, ns, ts, es, is, xs, text, extra, graph] =>
     let opl := (ops.splitOn ";").filter (· ≠ "")
     let lastOp := opl.getLastD ""
     let last := opName lastOp
@@ -282,10 +343,35 @@ def handle (op : String) (f : List String) : Verdict :=
       let small := match T.undump before with
         | some tb => tb.tipNames.length < 3
         | none => false
-      if small && outcome.startsWith "panic" then ⟨.pass, tags0 ++ ["panic-small-tree", "err"], ""⟩
-      else ⟨.oracle, tags0 ++ ["crash"], "operation " ++ last ++ " did not return: " ++ outcome⟩
+      -- AddQuotes / RemoveQuotes index name[0]: the model says where they panic (not a successful edit)
+      let modelPanics : Bool := match T.undump before with
+        | some tb => (last == "addquotes" || last == "rmquotes") &&
+            (match lastOp.splitOn ":" with
+             | [_, i, tp] => (match applyOp (.quotes (last == "addquotes") (flagOf i) (flagOf tp)) tb with | .panic _ => true | _ => false)
+             | _ => false)
+        | none => false
+      if modelPanics && outcome.startsWith "panic" then ⟨.pass, tags0 ++ ["panic-modelled", "err"], ""⟩
+      else if small && outcome.startsWith "panic" then ⟨.pass, tags0 ++ ["panic-small-tree", "err"], ""⟩
+      else
+        -- reported defect: Undo (Apply) of a rearrangement whose n1, n2 were separated by later edits
+        -- indexes Edges()[-1] instead of returning its error (missing `return` in tree/rearrange.go)
+        let sinceApply := (opl.dropLast.reverse.takeWhile fun o => opName o != "nniapply").map opName
+        let structural := sinceApply.any fun o =>
+          !(["sorttips", "rotate", "rotateone", "reroot", "rerootfirst", "reinit", "rename", "renameauto", "renameregex",
+             "addquotes", "rmquotes", "shuffle", "clearlengths", "clearsupports", "clearcomments", "scalelengths",
+             "roundlengths"].contains o)
+        let cls := if last == "nniundo" && structural && outcome.startsWith "panic" then "class=NniUndoStalePanic " else ""
+        ⟨.oracle, tags0 ++ ["crash"], cls ++ "operation " ++ last ++ " did not return: " ++ outcome⟩
+    else
+    -- clause 1 of the property, judged by the Spec on the raw pointer graph; the harness' own walker
+    -- (`wf`) is kept as a cross-check: the two must agree
+    let gp : List String := match parseGraph graph with
+      | some g => graphProblems g
+      | none => ["unreadable graph"]
+    if !gp.isEmpty then
+      ⟨.oracle, tags0 ++ ["malformed"] ++ tagIf (wf == "") "walker-missed-it", "heap malformed after " ++ last ++ ": " ++ "; ".intercalate gp ++ " | walker: " ++ wf⟩
     else if wf != "" then
-      ⟨.oracle, tags0 ++ ["malformed"], "heap malformed after " ++ last ++ ": " ++ wf⟩
+      ⟨.oracle, tags0 ++ ["malformed", "graph-check-missed-it"], "heap malformed after " ++ last ++ " (walker only): " ++ wf⟩
     else
     match T.undump after, T.undump before, parseNodeList ns, parseNodeList ts, parseEdgeList es, parseEdgeList is,
           parseEdgeList xs, unescape text with
@@ -302,18 +388,28 @@ def handle (op : String) (f : List String) : Verdict :=
           (((paths.splitOn ",").filter (· ≠ "")).mapM (fun s => (parsePath s).bind id)).bind fun ps =>
             (ps.mapM (edgeIdAt tb)).map fun ids => EditOp.removeEdges (flagOf rr) (flagOf rt) ids
         | _ => if isRenaming last then some (EditOp.relabel t.nodeNames) else editOpOf lastOp extra
-      let tags := tags0 ++ tagIf (kinds.length ≥ 3 && changed) "nontrivial" ++ tagIf t.rooted "rooted" ++
+      let tags := tags0 ++ tagIf (kinds.length ≥ 3 && changed && after != before) "nontrivial" ++ tagIf t.rooted "rooted" ++
         tagIf (t.kids.length ≥ 3) "unrooted" ++ tagIf (t.kids.length ≤ 1) "root-degenerate" ++
         tagIf ((allPaths t).any fun p => match subtreeAt t p with | some s => s.kids.length ≥ 3 && !p.isEmpty | none => false) "multifurcating" ++
         tagIf (noSingleAll t) "nosingle" ++ tagIf (!nsb) "before-has-single" ++
         tagIf (after == before) "unchanged-step" ++ tagIf hypInv "hyp-inv-before" ++
+        tagIf (textWF Gotree.Newick.goCodec t) "hyp-textwf" ++
         (match eo with
          | some e => ["editop"] ++ tagIf (opPre nsb e tb) "hyp-oppre"
          | none => [])
+      -- the tree value all oracles and ties below work on is what Lean itself reads off the raw graph
+      let alphaOK := match parseGraph graph with
+        | some g => graphIsTree g t
+        | none => false
+      if !alphaOK then ⟨.oracle, tags, "after " ++ last ++ ": the α dump is not the tree the raw pointer graph is (shape / child order / parent positions)"⟩ else
       let ep := enumProblems t ns ts es is xs
       let tp := textProblems t text
       let eff : Option TipEffect := match tipEffect lastOp with
-        | some (.add names) => some (.add (names.filter fun x => !(tipNamesD tb).contains x))   -- identical groups name one old tip each
+        | some (.add names) =>
+          if last == "resolvenamed" then
+            -- every named node that is not a tip gets a tip child carrying its name
+            some (.add (((nodeFlags false tb).filter fun p => !p.2 && p.1 != "").map (·.1)))
+          else some (.add (names.filter fun x => !(tipNamesD tb).contains x))   -- identical groups name one old tip each
         | e => e
       if eff.isNone then bad ("C03.step: cannot read the operation " ++ lastOp)
       else if !(tipEffectOK (eff.getD .unknown) tb t) then
@@ -326,7 +422,9 @@ def handle (op : String) (f : List String) : Verdict :=
       let invAfter : Bool := match eo with
         | some e => !(hypInv && opPre nsb e tb) || InvB (promised nsb e tb) t
         | none => true
-      if !invAfter then ⟨.oracle, tags, "after " ++ last ++ ": the history invariant (unique tips, no single-child node where promised) is lost"⟩
+      -- (unique tips / no single-child node is the side condition of the quantifier, which `history_inv` proves
+      -- re-established by the MODEL: if the implementation's result lacks it, the tie is broken)
+      if !invAfter then ⟨.tie, tags, "after " ++ last ++ ": the history invariant (unique tips, no single-child node where promised) is lost"⟩
       else
       -- tie 1: the model's enumerations of the tree α returned, as multisets of paths
       let known (l : List (Option Path)) : List Path := l.filterMap id
@@ -348,8 +446,47 @@ def handle (op : String) (f : List String) : Verdict :=
       else
       -- tie 2: obs_C03 = the exact rooted tree (child order, parent positions, all data)
       let tags := tags ++ tagIf orderSame "enum-order-exact"
+      -- NNI Undo as a step of its own (the Rearrangement object lived across the steps in between):
+      -- `extra` = "undo=<clean><fresh>=<α dump before the Apply>"
+      let undoInfo : Option (Bool × Bool × String) :=
+        if last == "nniundo" && extra.startsWith "undo=" then
+          match (String.ofList (extra.toList.drop 5)).splitOn "=" with
+          | [fl, d] => some (fl.toList.getD 0 '0' == '1', fl.toList.getD 1 '0' == '1', d)
+          | _ => none
+        else none
+      let undoProblem : Option String := match undoInfo with
+        | some (clean, _, d) =>
+          match T.undump d with
+          | none => some "unreadable pre-apply dump"
+          | some pre =>
+            -- only order / root / index edits happened since the Apply: the unrooted splits are back
+            if clean && uniqueTipsB pre && !(pre.tipNames.any (· == "")) && pre.tipNames.length ≥ 3 &&
+               canonSet t.usplitSet != canonSet pre.usplitSet then
+              some "Apply, order/root edits, Undo: the splits of the tree before the Apply are not restored"
+            else none
+        | none => none
+      -- (restoring the splits is C17's property, not a clause of C03: a broken tie, not an oracle failure)
+      if undoProblem.isSome then ⟨.tie, tags ++ ["nni-undo-later"], "after " ++ last ++ ": " ++ undoProblem.getD ""⟩ else
+      let tags := tags ++ (match undoInfo with
+        | some (clean, fresh, _) => ["nni-undo-step"] ++ tagIf (!fresh) "nni-undo-later" ++ tagIf clean "nni-undo-clean"
+        | none => [])
       -- a renaming may change nothing but node names: the new names are read off the result
-      let mres := if isRenaming last then ofRes (applyOp (.relabel t.nodeNames) tb) else modelOf lastOp extra inSync sizesOK tb
+      let mres :=
+        if isRenaming last then ofRes (applyOp (.relabel t.nodeNames) tb)
+        else if last == "nniundo" then
+          (match undoInfo with
+           | none => .ok tb                                   -- nothing to undo: no-op
+           | some (_, fresh, d) =>
+             -- Undo right after Apply gives the tree back exactly (C17.undo_apply)
+             if !fresh then .noModel else
+             match T.undump d, ((opl.dropLast.getLastD "").splitOn ":") with
+             | some pre, ["nniapply", k] =>
+               let rs := Gotree.C17.rearrangements pre
+               (match k.toNat?.bind (fun n => rs[n % rs.length]?) with
+                | some r => (match Gotree.C17.undo tb r with | some m => .ok m | none => .skip "nni-undo")
+                | none => .noModel)
+             | _, _ => .noModel)
+        else modelOf lastOp extra inSync sizesOK tb
       match mres with
       | .ok m =>
         if m.dump == after then ⟨.pass, tags ++ [if isRenaming last then "tie-exact-up-to-names" else "tie-exact"], ""⟩
